@@ -65,6 +65,13 @@ pub fn check_probe_discipline(rep: &mut CaseReport, m: &SenderModel) -> u32 {
         if s.is_fin {
             continue;
         }
+        // an outstanding probe stops being one when its size has meanwhile been proven some other
+        // way (payloads of that size received from the peer raise the endpoint's own segment size)
+        let before = probes.len();
+        probes.retain(|_, l| *l > s.seg_size);
+        if probes.len() < before {
+            rep.counters.inc("c14_outstanding_probes_overtaken_by_the_proven_size");
+        }
         if !s.first_tx {
             // a probe re-sent with another length has been taken back and cut again
             if let Some(l) = probes.get(&s.idx) {
